@@ -136,6 +136,7 @@ def runCase : CaseFn := fun c => Id.run do
   let mut oldFs : List Nat := [1]
   let mut oldBt : Nat := 0
   let mut banned : List Nat := []
+  let mut resolveHonest := false   -- the last successful resolveConflict had an unbanned full true list among its inputs
   for (ln, line) in c.lines do
     let (op, obs) := splitObs line
     let ws := words op
@@ -272,6 +273,39 @@ def runCase : CaseFn := fun c => Id.run do
           out := out.push (fail "tip-path-skips-hardcoded-checkpoint" "a filter header committed on the at-tip path differs from the hard-coded checkpoint at its height")
         else
           out := out.push (fail "checkpoint" "stored filter header differs from a hard-coded checkpoint")
+      -- ---------- checkpoint lists (implementation observations + ground truth only) ----------
+      if ws == ["resolve"] then
+        let bannedNow := peersOfBans d.bans
+        if ret.startsWith "ok" then
+          let good := (bracket ((words ret).drop 1)).1.map nat!
+          let agree (a b : List Nat) : Bool :=
+            (List.range (min a.length b.length)).all (fun i => a.getD i 0 == b.getD i 0)
+          -- the list handed back must agree with every list whose sender was not banned for it
+          match e.cpl.find? (fun pl => !bannedNow.contains pl.1 && !agree pl.2 good) with
+          | some pl =>
+            out := out.push (fail "resolve-ignores-disagreement" s!"resolveConflict returned a checkpoint list although peer {pl.1}, not banned, serves a list that contradicts it")
+          | none => pure ()
+          let tf := trueFs e chain
+          let trueCps := (List.range (tf.length / 1000)).map (fun i => tf.getD ((i + 1) * 1000) 0)
+          resolveHonest := e.cpl.any (fun pl => !bannedNow.contains pl.1 && pl.2.length ≥ good.length &&
+            pl.2 == trueCps.take pl.2.length)
+          if resolveHonest && good != trueCps.take good.length then
+            out := out.push (fail "honest-wins-checkpoints" "an honest peer offered the true checkpoint list and was not banned, yet resolveConflict returned a list with a false checkpoint")
+        else
+          resolveHonest := false
+      if isFetch && resolveHonest then
+        let tf := trueFs e chain
+        let bannedNow := d.bans
+        let honestEv (ev : CpEv) : Bool :=
+          let startH := ev.k * 1000 + 1
+          !ev.stopOk || (ev.prev == tf.getD (startH - 1) 0 &&
+            (List.range ev.hashes.length).all (fun j =>
+              ev.hashes.getD j 0 == (e.tf.get? (chain.getD (startH + j) 0)).getD 0))
+        for p in e.allPeers do
+          -- a peer all of whose answers carried the true filter hashes must not be banned for them
+          if e.evs.any (fun ev => ev.peer == p) && (e.evs.filter (fun ev => ev.peer == p)).all honestEv &&
+              bannedNow.contains s!"{p}:4" then
+            out := out.push (fail "honest-banned-in-fetch" s!"peer {p} answered the checkpointed queries with the true filter hashes only and was banned for it, although an honest checkpoint list had been offered")
       if isRound then
         let start := oldFs.length
         let stopH := if oldBt - start ≥ maxPerMsg then start + maxPerMsg - 1 else oldBt
